@@ -26,7 +26,9 @@ def run(ctx):
                "Euclidean-ring test, otherwise the Quotient node, operands in "
                "order; the legacy exact nodes are hashable; evaluating a Rational "
                "divides numerator by denominator")
-    ctx.decline("Euclid, lcm, FFT, polynomial arithmetic (numeric)")
+    ctx.decide("ifft/sym_fft pass every option they accept on to fft")
+    ctx.decline("Euclid, lcm, the FFT's arithmetic, polynomial arithmetic "
+                "(numeric)")
     ctx.assume("traits.common_traits classifies operand types as documented")
 
     _integer_power(ctx, model)
@@ -34,6 +36,46 @@ def run(ctx):
     _quotient(ctx, model)
     _legacy_hashable(ctx, model)
     _evaluate_rational(ctx, model)
+    _fft_wrappers(ctx, model)
+
+
+def _fft_wrappers(ctx, model):
+    """ifft and sym_fft are thin wrappers around fft: every option they accept
+    must reach the fft call (an accepted-but-unused option silently selects the
+    wrong transform), and ifft fixes sign=-1"""
+    for wname in ("ifft", "sym_fft"):
+        m, fn = model.func(f"{ALG}:{wname}")
+        params = [a.arg for a in fn.args.args + fn.args.kwonlyargs]
+        calls = [c for c in ast.walk(fn) if isinstance(c, ast.Call)
+                 and isinstance(c.func, ast.Name) and c.func.id == "fft"]
+        if len(calls) != 1:
+            raise AnalysisError(f"{wname}: expected exactly one call to fft")
+        call = calls[0]
+        passed = set()
+        for a in list(call.args) + [k.value for k in call.keywords]:
+            for nm in ast.walk(a):
+                if isinstance(nm, ast.Name):
+                    passed.add(nm.id)
+        # parameters used to *define* a value that is passed also count
+        local_defs = {}
+        for st in ast.walk(fn):
+            if isinstance(st, ast.FunctionDef) and st is not fn:
+                local_defs[st.name] = {x.id for x in ast.walk(st)
+                                       if isinstance(x, ast.Name)}
+        for nm in list(passed):
+            passed |= local_defs.get(nm, set())
+        missing = [p_ for p_ in params if p_ not in passed]
+        ctx.ob(f"P/{wname}/options-reach-fft", not missing, m.loc(fn),
+               f"{wname} passes {params} on to fft" if not missing else
+               f"{wname} accepts the option(s) {missing} but never passes them to "
+               "fft: the caller's choice is silently ignored")
+        if wname == "ifft":
+            kw = {k.arg: ast.unparse(k.value) for k in call.keywords}
+            ok = kw.get("sign") == "-1" or (len(call.args) > 1 and ast.unparse(
+                call.args[1]) == "-1")
+            ctx.ob("P/ifft/sign", ok, m.loc(fn),
+                   "ifft is fft with sign=-1" if ok else
+                   "ifft does not call fft with sign=-1")
 
 
 def _integer_power(ctx, model):
